@@ -9,7 +9,9 @@ void *__real_realloc(void *, size_t);
 void __real_free(void *);
 long aw_live, aw_allocs, aw_fail_at = -1, aw_fired;
 size_t aw_cur_bytes, aw_peak_bytes;
+size_t aw_max_req;          /* additive (C15): largest single request seen, whether or not it succeeded */
 static int armed;
+static void note_req(size_t n) { if(n > aw_max_req) aw_max_req = n; }
 void aw_arm(long fail_at) { armed = 1; aw_allocs = 0; aw_fail_at = fail_at; aw_fired = 0; aw_peak_bytes = aw_cur_bytes; }
 void aw_disarm(void) { armed = 0; aw_fail_at = -1; }
 static int should_fail(void) {
@@ -30,18 +32,21 @@ static void acct_del(void *p) {
     aw_cur_bytes -= malloc_usable_size(p);
 }
 void *__wrap_malloc(size_t n) {
+    note_req(n);
     if(should_fail()) return 0;
     void *p = __real_malloc(n);
     acct_add(p);
     return p;
 }
 void *__wrap_calloc(size_t a, size_t b) {
+    note_req(b && a > (size_t)-1 / b ? (size_t)-1 : a * b);
     if(should_fail()) return 0;
     void *p = __real_calloc(a, b);
     acct_add(p);
     return p;
 }
 void *__wrap_realloc(void *o, size_t n) {
+    note_req(n);
     if(should_fail()) return 0;      /* original block stays valid, as with a real failure */
     size_t old = o ? malloc_usable_size(o) : 0;
     void *p = __real_realloc(o, n);
